@@ -250,6 +250,9 @@ fn run_store(s: &Script, tr: &mut Trace, cypher_writes: bool, lab: bool) -> Res<
         let r: Result<(), String> = match op {
             "Graph" => {
                 w.n = gi(step, "n");
+                if w.lab {
+                    ev["mlab"] = json!((1..=w.n).filter(|h| h % 2 == 1).collect::<Vec<_>>());
+                }
                 // a few padding nodes first so that node ids are not the handles
                 for st in [&mut w.a, &mut w.b] {
                     st.create_node("Pad");
